@@ -9,11 +9,13 @@ from typing import Dict, List, Optional, Set, Tuple
 from .effects import MUTATORS, direct_mutations
 from .model import ClassInfo, Model, dotted, last_attr, mangle, unparse, walk_no_nested
 
-MUTABLE_CTORS = {"list", "dict", "set", "OrderedDict", "defaultdict", "StringIO", "BytesIO", "collections.OrderedDict", "collections.defaultdict", "io.StringIO", "io.BytesIO", "bytearray", "deque", "ChainMap"}
+MUTABLE_CTORS = {"list", "dict", "set", "OrderedDict", "defaultdict", "StringIO", "BytesIO", "collections.OrderedDict", "collections.defaultdict", "io.StringIO", "io.BytesIO", "bytearray", "deque", "ChainMap",
+                 # stateful iterators / generators: every next() changes them
+                 "count", "itertools.count", "cycle", "itertools.cycle", "iter", "Random", "random.Random", "Counter", "collections.Counter", "collections.deque"}
 
 
 def is_mutable_literal(e) -> bool:
-    if isinstance(e, (ast.List, ast.Dict, ast.Set, ast.ListComp, ast.DictComp, ast.SetComp)):
+    if isinstance(e, (ast.List, ast.Dict, ast.Set, ast.ListComp, ast.DictComp, ast.SetComp, ast.GeneratorExp)):
         return True
     if isinstance(e, ast.Call):
         d = dotted(e.func) or ""
@@ -36,6 +38,8 @@ def mutations_in(node) -> List[Tuple[ast.AST, ast.AST]]:
     for n in ast.walk(node):
         if isinstance(n, ast.Call) and isinstance(n.func, ast.Attribute) and n.func.attr in MUTATORS | {"write", "writelines", "truncate", "seek"}:
             out.append((n.func.value, n))
+        elif isinstance(n, ast.Call) and isinstance(n.func, ast.Name) and n.func.id == "next" and n.args:
+            out.append((n.args[0], n))
         elif isinstance(n, (ast.Assign, ast.AugAssign, ast.Delete)):
             tgts = n.targets if isinstance(n, (ast.Assign, ast.Delete)) else [n.target]
             for t in tgts:
